@@ -439,6 +439,7 @@ fn expected_tokens(nodes: &[Node], depth: usize, out: &mut Vec<(String, usize)>,
         match c {
             Cond::Scripted { id, .. } => out.push((format!("Scripted:{id}"), depth)),
             Cond::LessThan { n, .. } | Cond::EveryN { n, .. } => params.push(*n as f64),
+            Cond::LessThanF { n, .. } => params.push(*n),
             Cond::ChangeDelta { threshold, .. } => params.push(*threshold as f64),
             Cond::ChangeEq { .. } => {}
             Cond::Optimum { eps, .. } => params.push(*eps),
